@@ -12,6 +12,7 @@ import Verif.Proofs.JsMinSound
 import Verif.Proofs.HtmlWs
 import Verif.Proofs.NumJson
 import Verif.Proofs.C16HtmlOpt
+import Verif.Proofs.C16JsVersion
 /-!
 # C16 — options only restrict minification and are honoured
 
@@ -261,6 +262,32 @@ theorem js_keep_var_names_scope (c : Cfg) (sc : ScopeIn) :
   constructor
   · rw [← List.unzip_snd, List.unzip_zip (by simp)]
   · rw [← List.unzip_fst, List.unzip_zip (by simp)]
+
+/-- JS `Version` below 2020 in the C01 model of the rewriter: with the gate closed (`v20 = false`) the node rewriter
+    of `minifyExpr` (`optimizeCondExpr` with all its rewrites — `c?x:y → c||y`, call merging, boolean bodies, De Morgan,
+    nested and comma conditionals — and `optimizeUnaryExpr`) maps an expression without `??`/`??=` to one without:
+    every expression, every precedence context, guarded or not.  (`?.`: the optional-chaining rewrite is the
+    `unmodelled` branch of `toNullish`, reachable only with `v20 = true`.) -/
+theorem js_version_no_new_nullish (g : Bool) (e : Verif.Spec.JsSyntax.E) (p : Nat) (r : Verif.Spec.JsSyntax.E)
+    (he : Verif.Proofs.C16JsVersion.nn e = true) (h : Verif.Model.JsPrint.optNode g false e p = some r) :
+    Verif.Proofs.C16JsVersion.nn r = true :=
+  Verif.Proofs.C16JsVersion.nn_optNode g e p r he h
+
+/-- the same for `optimizeCondExpr` on its three parts -/
+theorem js_version_no_new_nullish_cond (g : Bool) (c x y : Verif.Spec.JsSyntax.E) (p : Nat) (r : Verif.Spec.JsSyntax.E)
+    (hc : Verif.Proofs.C16JsVersion.nn c = true) (hx : Verif.Proofs.C16JsVersion.nn x = true)
+    (hy : Verif.Proofs.C16JsVersion.nn y = true) (h : Verif.Model.JsOpt.optCond g false c x y p = some r) :
+    Verif.Proofs.C16JsVersion.nn r = true :=
+  Verif.Proofs.C16JsVersion.nn_optCond g c x y p r hc hx hy h
+
+/-- non-vacuity: `a==null?b:a` has no `??`; with the gate open the rewrite produces one, with the gate closed the
+    conditional stays -/
+example :
+    let c := Verif.Spec.JsSyntax.E.bin .eq (.var "a") (.lit .null)
+    Verif.Proofs.C16JsVersion.nn (.cond c (.var "b") (.var "a")) = true ∧
+    (Verif.Model.JsOpt.optCond false true c (.var "b") (.var "a") 0).map Verif.Proofs.C16JsVersion.nn = some false ∧
+    (Verif.Model.JsOpt.optCond false false c (.var "b") (.var "a") 0).map Verif.Proofs.C16JsVersion.nn = some true := by
+  decide +kernel
 
 end Js
 
